@@ -54,9 +54,10 @@ PatternMatches = typ.Iterable[PatternMatch]
 
 def _iter_for_pattern(lines: typ.List[str], pattern: Pattern) -> PatternMatches:
     for lineno, line in enumerate(lines):
-        match = pattern.regexp.search(line)
-        if match and len(match.group(0)) > 0:
-            yield PatternMatch(lineno, line, pattern, match.span(), match.group(0))
+        # NOTE: A pattern can occur more than once on a line.
+        for match in pattern.regexp.finditer(line):
+            if len(match.group(0)) > 0:
+                yield PatternMatch(lineno, line, pattern, match.span(), match.group(0))
 
 
 def iter_matches(lines: typ.List[str], patterns: typ.List[Pattern]) -> PatternMatches:
